@@ -312,21 +312,169 @@ def check_hodge(repo, res, hl):
     res.inst("B-HODGE", f"hodge_laplacian builds B_k and B_k+1 from the same orientations ({sorted(orders)})", ok)
     if not ok:
         res.add(mk_finding(PROP, "B-HODGE", hl, hl.node, f"hodge_laplacian does not build both boundary matrices (orders {sorted(orders)}) from the caller's orientations; the two halves of the Laplacian then belong to different chain complexes", role="orientations"))
-    # L = B_k^T B_k + B_{k+1} B_{k+1}^T
-    rets = [s for s in own_statements(hl.node) if isinstance(s, ast.Assign) and isinstance(s.value, ast.BinOp) and isinstance(s.value.op, ast.Add) and isinstance(s.value.left, ast.BinOp) and isinstance(s.value.left.op, ast.MatMult)]
-    ok = bool(rets)
-    if ok:
-        e = rets[0].value
-        names = [x.id for x in ast.walk(e) if isinstance(x, ast.Name)]
-        ok = len(names) == 4 and isinstance(e.right, ast.BinOp) and isinstance(e.right.op, ast.MatMult)
-        # transposes: D = np.transpose(B)
-        tr = {s.targets[0].id: s.value.args[0].id for s in own_statements(hl.node) if isinstance(s, ast.Assign) and isinstance(s.targets[0], ast.Name) and isinstance(s.value, ast.Call) and getattr(s.value.func, "attr", getattr(s.value.func, "id", None)) == "transpose" and s.value.args and isinstance(s.value.args[0], ast.Name)}
-        if ok:
-            a, b, c2, d = names
-            ok = tr.get(a) == b and tr.get(d) == c2
-    res.inst("B-HODGE", "hodge_laplacian is B_k^T B_k + B_k+1 B_k+1^T", ok)
-    if not ok:
-        res.add(mk_finding(PROP, "B-HODGE", hl, rets[0] if rets else hl.node, "hodge_laplacian is not composed as B_k^T B_k + B_{k+1} B_{k+1}^T", role="composition"))
+    # L = B_k^T B_k + B_{k+1} B_{k+1}^T on every path to a return (symbolic matrix expressions, one walk per path)
+    oname = hl.params[1] if len(hl.params) > 1 else "order"
+    sname = hl.params[0]
+
+    def order_of(e):
+        t = unparse(e).replace(" ", "")
+        if t == oname:
+            return 0
+        if t in (f"{oname}+1", f"1+{oname}"):
+            return 1
+        return None
+
+    def mat(e, env):
+        """symbolic value of a matrix expression: ('B', k) | ('T', v) | ('MM', a, b) | ('SUM', (terms...)) | ('LIT', text) | None"""
+        if isinstance(e, ast.Name):
+            return env.get(e.id)
+        if isinstance(e, ast.Call):
+            fname = getattr(e.func, "id", getattr(e.func, "attr", None))
+            if fname == "boundary_matrix":
+                od = e.args[1] if len(e.args) > 1 else next((k.value for k in e.keywords if k.arg == "order"), None)
+                k = order_of(od) if od is not None else None
+                return ("B", k) if k is not None else None
+            if fname == "transpose":
+                inner = e.args[0] if e.args else (e.func.value if isinstance(e.func, ast.Attribute) else None)
+                v = mat(inner, env) if inner is not None else None
+                return ("T", v) if v is not None else None
+            if fname in ("matmul", "dot") and len(e.args) == 2:
+                a, b = mat(e.args[0], env), mat(e.args[1], env)
+                return ("MM", a, b) if a is not None and b is not None else None
+            if fname == "dot" and len(e.args) == 1 and isinstance(e.func, ast.Attribute):
+                a, b = mat(e.func.value, env), mat(e.args[0], env)
+                return ("MM", a, b) if a is not None and b is not None else None
+            if fname == "add" and len(e.args) == 2:
+                return msum(mat(e.args[0], env), mat(e.args[1], env))
+            if fname in ("zeros", "empty", "csr_array", "csr_matrix", "array", "zeros_like") and e.args and isinstance(e.args[0], (ast.Tuple, ast.List)) and all(isinstance(x, ast.Constant) for x in e.args[0].elts):
+                return ("LIT", unparse(e, 40))
+            return None
+        if isinstance(e, ast.Attribute) and e.attr == "T":
+            v = mat(e.value, env)
+            return ("T", v) if v is not None else None
+        if isinstance(e, ast.BinOp) and isinstance(e.op, ast.MatMult):
+            a, b = mat(e.left, env), mat(e.right, env)
+            return ("MM", a, b) if a is not None and b is not None else None
+        if isinstance(e, ast.BinOp) and isinstance(e.op, ast.Add):
+            return msum(mat(e.left, env), mat(e.right, env))
+        return None
+
+    def msum(a, b):
+        if a is None or b is None:
+            return None
+        ta = a[1] if a[0] == "SUM" else (a,)
+        tb = b[1] if b[0] == "SUM" else (b,)
+        return ("SUM", tuple(ta) + tuple(tb))
+
+    DOWN = ("MM", ("T", ("B", 0)), ("B", 0))
+    UP = ("MM", ("B", 1), ("T", ("B", 1)))
+
+    def no_upper_simplices(test, taken):
+        """is this branch the one where the complex has no (order+1)-simplices?  `order < <max order>` not taken, ..."""
+        t = test
+        if isinstance(t, ast.UnaryOp) and isinstance(t.op, ast.Not):
+            return no_upper_simplices(t.operand, not taken)
+        if isinstance(t, ast.BoolOp) and isinstance(t.op, ast.And) and not taken:
+            # not (A and B): fine when the failure of either conjunct means there are no (order+1)-simplices
+            return all(no_upper_simplices(v, False) for v in t.values)
+        if unparse(t).replace(" ", "") in (f"{sname}.edges", f"{sname}.num_edges", f"len({sname}.edges)"):
+            return not taken  # no simplices at all
+        if isinstance(t, ast.Compare) and len(t.ops) == 1:
+            l, r, op = unparse(t.left).replace(" ", ""), unparse(t.comparators[0]).replace(" ", ""), t.ops[0]
+            def is_max(x):
+                return "max" in x and oname in x or "max_edge_order" in x
+            if l == oname and is_max(r) and isinstance(op, ast.Lt):
+                return not taken
+            if l == oname and is_max(r) and isinstance(op, ast.GtE):
+                return taken
+            if is_max(l) and r == oname and isinstance(op, ast.Gt):
+                return not taken
+            if is_max(l) and r == oname and isinstance(op, ast.LtE):
+                return taken
+            if l in (f"{oname}+1", f"1+{oname}") and is_max(r) and isinstance(op, ast.LtE):
+                return not taken
+        return False
+
+    def node_emptiness(test, taken):
+        """the branch on which the complex is known to have no nodes"""
+        t = test
+        if isinstance(t, ast.UnaryOp) and isinstance(t.op, ast.Not):
+            inner = unparse(t.operand).replace(" ", "")
+            if inner in (f"{sname}.nodes", f"{sname}.num_nodes", f"len({sname}.nodes)", f"len({sname})", sname):
+                return taken
+            return False
+        if isinstance(t, ast.Compare) and len(t.ops) == 1 and isinstance(t.comparators[0], ast.Constant) and t.comparators[0].value == 0:
+            l = unparse(t.left).replace(" ", "")
+            if l in (f"{sname}.num_nodes", f"len({sname}.nodes)", f"len({sname})"):
+                return taken if isinstance(t.ops[0], ast.Eq) else False
+        if isinstance(t, ast.BoolOp) and isinstance(t.op, ast.And) and taken:
+            return any(node_emptiness(v, True) for v in t.values)
+        return False
+
+    outcomes = []  # (return stmt, matrix value, guards)
+
+    def walk(stmts, env, guards):
+        """returns True when control falls through"""
+        for k, st in enumerate(stmts):
+            if isinstance(st, ast.If):
+                fell = False
+                for taken, body in ((True, st.body), (False, st.orelse)):
+                    e2 = dict(env)
+                    if walk(list(body) + list(stmts[k + 1:]), e2, guards + [(st.test, taken)]):
+                        fell = True
+                return fell
+            if isinstance(st, ast.Return):
+                v = st.value
+                parts = [v.body, v.orelse] if isinstance(v, ast.IfExp) else [v]
+                for part in parts:
+                    m = part.elts[0] if isinstance(part, ast.Tuple) and part.elts else part
+                    outcomes.append((st, mat(m, env) if m is not None else None, list(guards)))
+                return False
+            if isinstance(st, ast.Raise):
+                return False
+            if isinstance(st, ast.Assign) and len(st.targets) == 1:
+                t = st.targets[0]
+                if isinstance(t, ast.Name):
+                    env[t.id] = mat(st.value, env)
+                elif isinstance(t, ast.Tuple) and t.elts and isinstance(t.elts[0], ast.Name):
+                    # B, rows, cols = boundary_matrix(..., True)
+                    env[t.elts[0].id] = mat(st.value, env)
+                    for x in t.elts[1:]:
+                        if isinstance(x, ast.Name):
+                            env[x.id] = None
+                continue
+            if isinstance(st, ast.AugAssign) and isinstance(st.target, ast.Name) and isinstance(st.op, ast.Add):
+                env[st.target.id] = msum(env.get(st.target.id), mat(st.value, env))
+                continue
+            if isinstance(st, (ast.For, ast.While, ast.Try, ast.With)):
+                raise AnalysisError(f"hodge_laplacian:{st.lineno}: statement kind {type(st).__name__} (extractor does not recognise the code)")
+        return True
+
+    walk(list(hl.node.body), {}, [])
+    if not outcomes:
+        raise AnalysisError("hodge_laplacian: no return found (extractor does not recognise the code)")
+    bad = None
+    shape_bad = None
+    for st, v, guards in outcomes:
+        if v is None:
+            raise AnalysisError(f"hodge_laplacian:{st.lineno}: cannot express the returned matrix in terms of the boundary matrices (extractor does not recognise the code)")
+        if v[0] == "LIT":
+            if not any(node_emptiness(t, taken) for t, taken in guards):
+                shape_bad = (st, v, guards)
+            continue
+        terms = list(v[1]) if v[0] == "SUM" else [v]
+        up_optional = any(no_upper_simplices(t, taken) for t, taken in guards)
+        extra = [t for t in terms if t not in (DOWN, UP)]
+        if extra or terms.count(DOWN) != 1 or terms.count(UP) > 1 or (terms.count(UP) == 0 and not up_optional):
+            bad = (st, terms)
+    res.inst("B-HODGE", f"hodge_laplacian is B_k^T B_k + B_k+1 B_k+1^T on each of its {len(outcomes)} return path(s)", bad is None)
+    if bad is not None:
+        res.add(mk_finding(PROP, "B-HODGE", hl, bad[0], "hodge_laplacian is not composed as B_k^T B_k + B_{k+1} B_{k+1}^T on every path to a return (the upper term may only be left out where the complex has no (order+1)-simplices)", role="composition"))
+    res.inst("B-HODGE", "hodge_laplacian: a matrix of literal shape is returned only where the complex has no nodes", shape_bad is None)
+    if shape_bad is not None:
+        st, v, guards = shape_bad
+        gtxt = " and ".join(("" if taken else "not ") + f"({unparse(t, 40)})" for t, taken in guards) or "no condition"
+        res.add(mk_finding(PROP, "B-HODGE", hl, st, f"hodge_laplacian returns `{v[1]}` under `{gtxt}`, which does not establish that the complex has no nodes; the order-0 Laplacian has one row and column per node whether or not there are simplices (its kernel counts the connected components)", role="shape"))
 
 
 def check_subfaces_order(repo, res):
